@@ -4,3 +4,11 @@ coq:
 	cd coq && /venv/bin/python ../harness/gen_consts.py && coq_makefile -f _CoqProject -o Makefile.coq && timeout 3000 $(MAKE) -f Makefile.coq -j16
 clean:
 	cd coq && $(MAKE) -f Makefile.coq clean || true
+
+# independent re-check (coqchk) of every compiled property file and everything it depends on
+# (about 1 min), plus the textual audit for forbidden declarations; the output is kept in audit/
+.PHONY: audit
+audit: coq
+	mkdir -p audit
+	cd coq && timeout 3000 coqchk -silent -o -Q . DF $$(ls Props/*.vo | sed 's#/#.#;s#\.vo$$##;s#^#DF.#') | tee ../audit/coqchk.txt
+	(grep -rnE '\b(Admitted|admit|Axiom|Parameter|Conjecture)\b|Admit Obligations|Unset Guard|Unset Positivity|Unset Universe|bypass_check|type-in-type|impredicative-set' coq --include='*.v' --include='_CoqProject' || echo 'no forbidden declaration') | tee audit/forbidden.txt
